@@ -8,7 +8,10 @@
    msg_merge_empty_l / _r     Clone; Merge with the empty message
    msg_merge_eq_decode_concat Merge(a, b) = Unmarshal(Marshal a || Marshal b)
    msg_decode_app_encoded     decode (Marshal a || y) continues with y from a
-   msg_concat_eq_merge_refuted_FA6 *)
+   msg_concat_eq_merge_refuted_FA6
+   msg_decode_app             decode (x || y) = decode y into (decode x) for EVERY decodable pair (parsers on
+                              extended input, msg_step_ext, fuel monotonicity, msg_app_all)
+   msg_concat_eq_merge        Unmarshal(x || Marshal b) = Merge(Unmarshal x, b), x any decodable bytes *)
 From Coq Require Import List Arith NArith ZArith Lia Bool Permutation.
 From Coq Require Import ZifyBool ZifyNat ZifyN.
 From PB Require Import Base.PBytes Wire.WireModel Wire.VarintP Wire.ScanP.
@@ -603,4 +606,339 @@ Proof.
   exists ex_fa6, [n2b 8; n2b 3], [n2b 8; n2b 0]. do 4 eexists.
   split; [vm_compute; reflexivity|]. split; [vm_compute; reflexivity|].
   split; [vm_compute; reflexivity|]. split; [vm_compute; reflexivity|]. discriminate.
+Qed.
+
+(* ================= decode_app for arbitrary decodable input ================= *)
+(* ---------- the parsers on extended input, same result ---------- *)
+Lemma msg_dec_varint_ext bs v r y : dec_varint bs = Ok (v, r) -> dec_varint (bs ++ y) = Ok (v, r ++ y).
+Proof.
+  intros H. apply dec_varint_sound in H. destruct H as (p & -> & Hs & <-). rewrite <- app_assoc.
+  apply dec_varint_complete. exact Hs.
+Qed.
+Lemma msg_dec_bytes_ext bs v r y : dec_bytes bs = Ok (v, r) -> dec_bytes (bs ++ y) = Ok (v, r ++ y).
+Proof.
+  intros H. apply dec_bytes_sound in H. destruct H as (p & -> & Hs & Hv). rewrite <- !app_assoc.
+  apply dec_bytes_complete; assumption.
+Qed.
+Lemma msg_dec_tag_facts bs num typ r : dec_tag bs = Ok (num, typ, r) -> 1 <= num /\ exists p, bs = p ++ r.
+Proof.
+  intros H. split.
+  - unfold dec_tag in H. destruct (dec_varint bs) as [[x r0]|e]; [|discriminate].
+    destruct (decode_tag x) as [[n t]|]; [|discriminate]. destruct (N.ltb_spec n 1); [discriminate|].
+    inversion H; subst. assumption.
+  - apply dec_tag_iff in H. destruct H as (p & -> & _). exists p. reflexivity.
+Qed.
+Lemma msg_parse_val_ext_same dep num typ bs w r y :
+  typ <> 3 -> parse_val dep num typ bs = Ok (w, r) -> parse_val dep num typ (bs ++ y) = Ok (w, r ++ y).
+Proof.
+  intros Ht. rewrite !parse_val_eq. destruct_typ typ; try discriminate; try congruence;
+    first
+      [ destruct (dec_varint bs) as [[v rr]|e] eqn:E; [|discriminate]; intros H; inversion H; subst;
+        rewrite (msg_dec_varint_ext _ _ _ y E); reflexivity
+      | destruct (take 8 bs) as [[b rr]|] eqn:E; [|discriminate]; intros H; inversion H; subst;
+        rewrite (take_ext _ _ _ _ y E); reflexivity
+      | destruct (dec_bytes bs) as [[b rr]|e] eqn:E; [|discriminate]; intros H; inversion H; subst;
+        rewrite (msg_dec_bytes_ext _ _ _ y E); reflexivity
+      | destruct (take 4 bs) as [[b rr]|] eqn:E; [|discriminate]; intros H; inversion H; subst;
+        rewrite (take_ext _ _ _ _ y E); reflexivity ].
+Qed.
+Lemma msg_firstn_app_le' {A} n (a b : list A) : (n <= length a)%nat -> firstn n (a ++ b) = firstn n a.
+Proof. intros H. rewrite firstn_app. replace (n - length a)%nat with 0%nat by lia. cbn [firstn]. apply app_nil_r. Qed.
+Lemma msg_skipn_app_le {A} n (a b : list A) : (n <= length a)%nat -> skipn n (a ++ b) = skipn n a ++ b.
+Proof. intros H. rewrite skipn_app. replace (n - length a)%nat with 0%nat by lia. reflexivity. Qed.
+Lemma msg_consume_group_ext num r content n y :
+  consume_group num r = Ok (Some content, n) ->
+  consume_group num (r ++ y) = Ok (Some content, n) /\ skipn (N.to_nat n) (r ++ y) = skipn (N.to_nat n) r ++ y.
+Proof.
+  unfold consume_group. destruct (parse_val default_dep num 3 r) as [[w r']|e] eqn:E; [|discriminate].
+  destruct (msg_parse_val_ext _ _ _ _ _ _ y E) as (w' & E'). rewrite E'.
+  pose proof (parse_val_len _ _ _ _ _ _ E) as Hl.
+  rewrite !app_length. replace (length r + length y - (length r' + length y))%nat with (length r - length r')%nat by lia.
+  rewrite (msg_firstn_app_le' (length r - length r') r y) by lia.
+  cbv zeta. destruct (Nat.ltb _ _); [discriminate|]. intros H. inversion H; subst. split; [reflexivity|].
+  rewrite Nnat.Nat2N.id. apply msg_skipn_app_le. lia.
+Qed.
+
+Section DecApp.
+  Variable slow : bool.
+  Variable S : schema.
+  Notation dm := (msg_decode_msg slow S).
+
+  Lemma msg_unknown_ext tagraw num typ r acc acc' r' y :
+    msg_unknown tagraw num typ r acc = DOk (acc', r') ->
+    msg_unknown tagraw num typ (r ++ y) acc = DOk (acc', r' ++ y).
+  Proof.
+    unfold msg_unknown. destruct (parse_val default_dep num typ r) as [[w rr]|e] eqn:E; [|discriminate].
+    destruct (msg_parse_val_ext _ _ _ _ _ _ y E) as (w' & E'). rewrite E'.
+    pose proof (parse_val_len _ _ _ _ _ _ E) as Hl.
+    intros H. inversion H; subst. f_equal. f_equal. f_equal. f_equal. f_equal.
+    rewrite !app_length. replace (length r + length y - (length r' + length y))%nat with (length r - length r')%nat by lia.
+    apply msg_firstn_app_le'. lia.
+  Qed.
+
+  Section Step.
+    Variables (d : nat) (md : mdesc).
+
+    (* the branches of msg_step for a field that is not a map, as a function of the input *)
+    Definition msg_step_nmg (tagraw : list byte) (num typ : N) (acc : msg_macc) (fd : fdesc) (c : card) (r : list byte)
+      : dres (msg_macc * list byte) :=
+      match f_kind fd with
+      | KMsg tid =>
+        if typ =? 2 then
+          match dec_bytes r with
+          | Err _ => DErr DParse
+          | Ok (payload, r') =>
+            match msg_whole (dm d) tid payload (msg_old_sub fd (fst acc)) with
+            | DErr e => DErr e
+            | DOk m => DOk ((msg_store_sub md fd m (fst acc), snd acc), r')
+            end
+          end
+        else msg_unknown tagraw num typ r acc
+      | KGrp tid =>
+        if typ =? 3 then
+          if slow then
+            match consume_group num r with
+            | Err _ => DErr DParse
+            | Ok (None, _) => DErr DFuel
+            | Ok (Some content, n) =>
+              match msg_whole (dm d) tid content (msg_old_sub fd (fst acc)) with
+              | DErr e => DErr e
+              | DOk m => DOk ((msg_store_sub md fd m (fst acc), snd acc), skipn (N.to_nat n) r)
+              end
+            end
+          else
+            match dm d tid num (x00 :: r) r (msg_old_sub fd (fst acc)) with
+            | DErr e => DErr e
+            | DOk (m, r') => DOk ((msg_store_sub md fd m (fst acc), snd acc), r')
+            end
+        else msg_unknown tagraw num typ r acc
+      | KS sk =>
+        if typ =? sk_wt sk then
+          match parse_val 0 num typ r with
+          | Err _ => DErr DParse
+          | Ok (w, r') =>
+            match msg_dec_scalar sk (msg_field_utf8 slow fd) w with
+            | None => msg_unknown tagraw num typ r acc
+            | Some (DErr e) => DErr e
+            | Some (DOk s) =>
+              DOk ((if card_repeated c then msg_append_field fd [VS s] (fst acc)
+                    else msg_set_field md fd (VS s) (fst acc), snd acc), r')
+            end
+          end
+        else if (typ =? 2) && msg_packable sk && card_repeated c then
+          match dec_bytes r with
+          | Err _ => DErr DParse
+          | Ok (payload, r') =>
+            match msg_dec_packed (x00 :: payload) sk payload [] with
+            | DErr e => DErr e
+            | DOk vs => DOk ((msg_append_field fd vs (fst acc), snd acc), r')
+            end
+          end
+        else msg_unknown tagraw num typ r acc
+      end.
+
+    Lemma msg_step_nmg_eq tagraw num typ r acc fd :
+      msg_find_field md num = Some fd -> (forall kk ku vd, f_card fd <> CMap kk ku vd) ->
+      msg_step slow md (dm d) (msg_dsub2 slow S d) tagraw num typ r acc = msg_step_nmg tagraw num typ acc fd (f_card fd) r.
+    Proof.
+      intros Hf Hnm. unfold msg_step, msg_step_nmg. rewrite Hf.
+      destruct (f_card fd) eqn:Hc; try reflexivity. exfalso. eapply Hnm. reflexivity.
+    Qed.
+
+    Lemma msg_step_ext tagraw num typ r acc acc' r' y :
+      (forall t old m rr, dm d t num (x00 :: r) r old = DOk (m, rr) ->
+                          dm d t num (x00 :: r ++ y) (r ++ y) old = DOk (m, rr ++ y)) ->
+      msg_step slow md (dm d) (msg_dsub2 slow S d) tagraw num typ r acc = DOk (acc', r') ->
+      msg_step slow md (dm d) (msg_dsub2 slow S d) tagraw num typ (r ++ y) acc = DOk (acc', r' ++ y).
+    Proof.
+      intros Hgrp H.
+      destruct (msg_find_field md num) as [fd|] eqn:Hf.
+      2:{ unfold msg_step in *. rewrite Hf in *. apply msg_unknown_ext. exact H. }
+      destruct (f_card fd) as [| | | | |kk ku vd] eqn:Hc.
+      6:{ unfold msg_step in *. rewrite Hf, Hc in *.
+          destruct (msg_dsub2 slow S d) as [dm2|]; [|discriminate].
+          destruct (typ =? 2); [|apply msg_unknown_ext; exact H].
+          destruct (dec_bytes r) as [[payload rr]|e] eqn:E; [|discriminate].
+          rewrite (msg_dec_bytes_ext _ _ _ y E).
+          match type of H with context [msg_dec_entry ?a ?b ?c ?dd ?e ?f ?g ?h ?i] =>
+            destruct (msg_dec_entry a b c dd e f g h i) as [[key v]|e0]; [|discriminate] end.
+          inversion H; subst. reflexivity. }
+      all: assert (Hnm : forall kk ku vd, f_card fd <> CMap kk ku vd) by (intros; rewrite Hc; discriminate).
+      all: rewrite (msg_step_nmg_eq tagraw num typ r acc fd Hf Hnm) in H; rewrite (msg_step_nmg_eq tagraw num typ (r ++ y) acc fd Hf Hnm); clear Hc; unfold msg_step_nmg in *.
+      all: destruct (f_kind fd) as [sk|t|t].
+      all: try (destruct (typ =? sk_wt sk) eqn:Ewt;
+                [ destruct (parse_val 0 num typ r) as [[w rr]|e] eqn:E; [|discriminate];
+                  assert (Hn3 : typ <> 3) by (apply N.eqb_eq in Ewt; rewrite Ewt; destruct sk; discriminate);
+                  rewrite (msg_parse_val_ext_same _ _ _ _ _ _ y Hn3 E);
+                  destruct (msg_dec_scalar sk (msg_field_utf8 slow fd) w) as [[s|e]|];
+                  [inversion H; subst; reflexivity|discriminate|apply msg_unknown_ext; exact H]
+                | destruct ((typ =? 2) && msg_packable sk && card_repeated (f_card fd));
+                  [|apply msg_unknown_ext; exact H];
+                  destruct (dec_bytes r) as [[payload rr]|e] eqn:E; [|discriminate];
+                  rewrite (msg_dec_bytes_ext _ _ _ y E);
+                  destruct (msg_dec_packed (x00 :: payload) sk payload []) as [vs|e]; [|discriminate];
+                  inversion H; subst; reflexivity ]).
+      all: try (destruct (typ =? 2); [|apply msg_unknown_ext; exact H];
+                destruct (dec_bytes r) as [[payload rr]|e] eqn:E; [|discriminate];
+                rewrite (msg_dec_bytes_ext _ _ _ y E);
+                destruct (msg_whole (dm d) t payload (msg_old_sub fd (fst acc))) as [m|e]; [|discriminate];
+                inversion H; subst; reflexivity).
+      all: destruct (typ =? 3); [|apply msg_unknown_ext; exact H].
+      all: destruct slow.
+      all: try (destruct (consume_group num r) as [[[content|] n]|e] eqn:E; try discriminate;
+                destruct (msg_consume_group_ext _ _ _ _ y E) as [E' Hsk]; rewrite E';
+                match type of H with context [msg_whole ?ff ?tt ?cc ?oo] =>
+                  destruct (msg_whole ff tt cc oo) as [m|e]; [|discriminate] end;
+                inversion H; subst; rewrite Hsk; reflexivity).
+      all: match type of H with context [msg_decode_msg ?sl ?SS ?dd ?tt ?nn (?xx :: ?r0) ?r1 ?o] =>
+             destruct (msg_decode_msg sl SS dd tt nn (xx :: r0) r1 o) as [[m rr]|e] eqn:E; [|discriminate] end;
+           rewrite (Hgrp _ _ _ _ E); inversion H; subst; reflexivity.
+    Qed.
+  End Step.
+End DecApp.
+
+Section DecApp2.
+  Variable slow : bool.
+  Variable S : schema.
+  Notation dm := (msg_decode_msg slow S).
+
+  Lemma msg_dm_nofuel d tid grp bs acc : dm d tid grp [] bs acc <> DOk (acc, bs) /\ forall res, dm d tid grp [] bs acc <> DOk res.
+  Proof.
+    split; [|]; destruct d as [|d]; cbn [msg_decode_msg]; try discriminate;
+      try (intros res); destruct (nth_error S tid); discriminate.
+  Qed.
+
+  (* a successful run succeeds with any longer fuel *)
+  Lemma msg_dm_fuel_mono d tid grp : forall g g' bs acc res,
+    dm d tid grp g bs acc = DOk res -> (length g <= length g')%nat -> dm d tid grp g' bs acc = DOk res.
+  Proof.
+    destruct d as [|d]; [intros g g' bs acc res H; cbn [msg_decode_msg] in H; discriminate|].
+    destruct (nth_error S tid) as [md|] eqn:Hmd.
+    2:{ intros g g' bs acc res H. cbn [msg_decode_msg] in H. rewrite Hmd in H. discriminate. }
+    induction g as [|x g IH]; intros g' bs acc res H Hl.
+    - exfalso. exact (proj2 (msg_dm_nofuel _ _ _ _ _) _ H).
+    - destruct g' as [|x' g']; [cbn in Hl; lia|].
+      rewrite (msg_dm_unfold slow S d tid grp md x g bs acc Hmd) in H.
+      rewrite (msg_dm_unfold slow S d tid grp md x' g' bs acc Hmd).
+      destruct bs as [|b0 bs0]; [exact H|].
+      destruct (dec_tag (b0 :: bs0)) as [[[num typ] r]|e]; [|discriminate].
+      destruct (msg_max_num <? num); [discriminate|].
+      destruct ((typ =? 4) && negb slow); [exact H|]. cbv zeta in *.
+      match type of H with context [msg_step ?p1 ?p2 ?p3 ?p4 ?p5 ?p6 ?p7 ?p8 ?p9] =>
+        destruct (msg_step p1 p2 p3 p4 p5 p6 p7 p8 p9) as [[acc1 r1]|e] end; [|discriminate].
+      apply (IH g' r1 acc1 res H). cbn [length] in Hl. lia.
+  Qed.
+
+  Definition msg_app_stmt (d : nat) : Prop :=
+    forall tid grp g bs acc acc' rest y gy,
+      dm d tid grp g bs acc = DOk (acc', rest) -> (length y < length gy)%nat ->
+      (grp = 0 /\ rest = [] /\ exists g3, (length y < length g3)%nat /\
+         dm d tid grp (tl g ++ gy) (bs ++ y) acc = dm d tid grp g3 y acc') \/
+      (grp <> 0 /\ dm d tid grp (tl g ++ gy) (bs ++ y) acc = DOk (acc', rest ++ y)).
+
+  (* what the field step needs from one level down: a directly decoded group ends at the same
+     place when more input follows *)
+  Lemma msg_app_group d : msg_app_stmt d ->
+    forall num r y t old m rr, 1 <= num ->
+      dm d t num (x00 :: r) r old = DOk (m, rr) ->
+      dm d t num (x00 :: r ++ y) (r ++ y) old = DOk (m, rr ++ y).
+  Proof.
+    intros IHd num r y t old m rr Hnum H.
+    destruct (IHd t num (x00 :: r) r old m rr y (x00 :: y) H) as [(Hz & _)|[_ E]]; [cbn [length]; lia|lia|].
+    cbn [tl] in E. apply (msg_dm_fuel_mono d t num _ _ _ _ _ E). cbn [length]. rewrite !app_length. cbn [length]. lia.
+  Qed.
+
+  Lemma msg_app_loop d tid md grp :
+    nth_error S tid = Some md -> msg_app_stmt d ->
+    forall g bs acc acc' rest y gy,
+      dm (Datatypes.S d) tid grp g bs acc = DOk (acc', rest) -> (length y < length gy)%nat ->
+      (grp = 0 /\ rest = [] /\ exists g3, (length y < length g3)%nat /\
+         dm (Datatypes.S d) tid grp (tl g ++ gy) (bs ++ y) acc = dm (Datatypes.S d) tid grp g3 y acc') \/
+      (grp <> 0 /\ dm (Datatypes.S d) tid grp (tl g ++ gy) (bs ++ y) acc = DOk (acc', rest ++ y)).
+  Proof.
+    intros Hmd IHd. induction g as [|x g IH]; intros bs acc acc' rest y gy H Hy.
+    - exfalso. exact (proj2 (msg_dm_nofuel _ _ _ _ _) _ H).
+    - rewrite (msg_dm_unfold slow S d tid grp md x g bs acc Hmd) in H. cbn [tl].
+      destruct bs as [|b0 bs0].
+      + destruct (N.eqb_spec grp 0) as [Hg0|]; [|discriminate]. inversion H; subst acc' rest.
+        left. split; [exact Hg0|]. split; [reflexivity|]. exists (g ++ gy). split; [rewrite app_length; lia|reflexivity].
+      + destruct (dec_tag (b0 :: bs0)) as [[[num typ] r]|e] eqn:Hdt; [|discriminate].
+        destruct (msg_dec_tag_facts _ _ _ _ Hdt) as [Hnum (p & Hp)].
+        destruct (msg_max_num <? num) eqn:Hmax; [discriminate|].
+        assert (Hfuel : exists x2 g2, g ++ gy = x2 :: g2 /\ (g = [] -> True)).
+        { destruct (g ++ gy) as [|x2 g2] eqn:Eg; [|exists x2, g2; split; [reflexivity|exact (fun _ => I)]].
+          apply (f_equal (@length byte)) in Eg. rewrite app_length in Eg. cbn [length] in Eg. lia. }
+        destruct ((typ =? 4) && negb slow) eqn:Hend.
+        * destruct (num =? grp) eqn:Hng; [|discriminate]. inversion H; subst acc' rest. right.
+          split; [apply N.eqb_eq in Hng; lia|].
+          destruct Hfuel as (x2 & g2 & Eg & _). rewrite Eg.
+          rewrite (msg_dm_unfold slow S d tid grp md x2 g2 _ acc Hmd). cbn [app].
+          change (b0 :: bs0 ++ y) with ((b0 :: bs0) ++ y). rewrite (msg_dec_tag_ext _ _ _ _ y Hdt).
+          rewrite Hmax, Hend, Hng. reflexivity.
+        * cbv zeta in H.
+          match type of H with context [msg_step ?p1 ?p2 ?p3 ?p4 ?p5 ?p6 ?p7 ?p8 ?p9] =>
+            destruct (msg_step p1 p2 p3 p4 p5 p6 p7 p8 p9) as [[acc1 r1]|e] eqn:E1 end; [|discriminate].
+          destruct g as [|x1 g1]; [exfalso; exact (proj2 (msg_dm_nofuel _ _ _ _ _) _ H)|].
+          cbn [app]. rewrite (msg_dm_unfold slow S d tid grp md x1 (g1 ++ gy) _ acc Hmd). cbn [app].
+          change (b0 :: bs0 ++ y) with ((b0 :: bs0) ++ y). rewrite (msg_dec_tag_ext _ _ _ _ y Hdt).
+          rewrite Hmax, Hend. cbv zeta.
+          assert (Htag : (if slow then firstn (length ((b0 :: bs0) ++ y) - length (r ++ y)) ((b0 :: bs0) ++ y) else enc_tag num typ) =
+                         (if slow then firstn (length (b0 :: bs0) - length r) (b0 :: bs0) else enc_tag num typ)).
+          { destruct slow; [|reflexivity]. rewrite !app_length.
+            replace (length (b0 :: bs0) + length y - (length r + length y))%nat with (length (b0 :: bs0) - length r)%nat by lia.
+            apply msg_firstn_app_le'. lia. }
+          rewrite Htag.
+          rewrite (msg_step_ext slow S d md _ num typ r acc acc1 r1 y (fun t old m rr => msg_app_group d IHd num r y t old m rr Hnum) E1).
+          exact (IH r1 acc1 acc' rest y gy H Hy).
+  Qed.
+
+  Theorem msg_app_all : forall d, msg_app_stmt d.
+  Proof.
+    induction d as [|d IHd]; intros tid grp g bs acc acc' rest y gy H Hy.
+    - cbn [msg_decode_msg] in H. discriminate.
+    - destruct (nth_error S tid) as [md|] eqn:Hmd.
+      + exact (msg_app_loop d tid md grp Hmd IHd g bs acc acc' rest y gy H Hy).
+      + cbn [msg_decode_msg] in H. rewrite Hmd in H. discriminate.
+  Qed.
+End DecApp2.
+
+(* decode (x || y) = decode y into (decode x), for every decodable pair *)
+Theorem msg_decode_app slow S limit tid x y vx v :
+  msg_decode slow S limit tid x = DOk vx ->
+  msg_decode_into slow S limit tid y vx = DOk v ->
+  msg_decode slow S limit tid (x ++ y) = DOk v.
+Proof.
+  intros H1 H2. unfold msg_decode, msg_decode_into in *.
+  match type of H1 with match ?X with DOk _ => _ | DErr _ => _ end = _ => destruct X as [[m1 r1]|e] eqn:E1; [|discriminate] end.
+  inversion H1; subst vx. cbn [msg_macc_of] in H2.
+  match type of H2 with match ?X with DOk _ => _ | DErr _ => _ end = _ => destruct X as [[m2 r2]|e] eqn:E2; [|discriminate] end.
+  inversion H2; subst v.
+  destruct (msg_app_all slow S limit tid 0 (x00 :: x) x _ m1 r1 y (x00 :: y) E1) as [(_ & _ & g3 & Hg3 & E)|[Hne _]];
+    [cbn [length]; lia| |congruence].
+  cbn [tl] in E.
+  destruct m1 as [f1 u1]. cbn [fst snd] in *.
+  pose proof (msg_dm_fuel_mono slow S limit tid 0 _ g3 _ _ _ E2) as E2'.
+  assert (Hl3 : (length (x00 :: y) <= length g3)%nat) by (cbn [length]; lia).
+  specialize (E2' Hl3). assert (E4 := eq_trans E E2'). clear E. rename E4 into E.
+  pose proof (msg_dm_fuel_mono slow S limit tid 0 _ (x00 :: x ++ y) _ _ _ E) as E3.
+  match goal with |- match ?X with DOk _ => _ | DErr _ => _ end = _ => replace X with (@DOk (msg_macc * list byte) (m2, r2)) end;
+    [reflexivity|].
+  symmetry. apply E3. cbn [length]. rewrite !app_length. cbn [length]. lia.
+Qed.
+
+(* Unmarshal(x || Marshal(b)) = Merge(Unmarshal(x), b): x any decodable byte string, b a canonical value *)
+Theorem msg_concat_eq_merge slow S limit tid x vx b :
+  msg_decode slow S limit tid x = DOk vx ->
+  msg_valid slow S limit tid b = true ->
+  exists m, msg_merge S limit tid vx b = Some m /\
+            msg_decode slow S limit tid (x ++ msg_encode S tid b) = DOk m.
+Proof.
+  intros Hx Hb.
+  assert (Hshape : exists afs au, vx = VMsg afs au).
+  { unfold msg_decode, msg_decode_into in Hx.
+    match type of Hx with match ?X with DOk _ => _ | DErr _ => _ end = _ => destruct X as [[m1 r1]|e]; [|discriminate] end.
+    inversion Hx. eexists; eexists; reflexivity. }
+  destruct Hshape as (afs & au & ->).
+  destruct (msg_decode_into_merge slow S limit tid b afs au Hb) as (m & Hm & Hd).
+  exists m. split; [exact Hm|]. exact (msg_decode_app slow S limit tid x _ _ m Hx Hd).
 Qed.
